@@ -55,6 +55,37 @@ TCE_VALUE = [("TriangleContainmentError($m)", "{m}")]
 BATCH_ARGS = {"self": "ap", "x": "x", "batch_size": "(bs.getD 0)", "kwargs": "()"}
 
 
+class _T(P.Translator2TH):
+    """Translator2TH plus one C09-local normalisation: a variable bound to a tuple of plain names and used as an index,
+    `t = (r, c)` ... `a[t]`, is the index expression `a[r, c]` (numpy: indexing with a tuple IS multi-axis indexing).
+    The registration is dropped as soon as the variable or one of the names is rebound."""
+
+    def function(self, fn, arg_names, ind=2, allow_unused=()):
+        self._tuples = {}
+        return P.Translator2TH.function(self, fn, arg_names, ind=ind, allow_unused=allow_unused)
+
+    def expr(self, node, scope):
+        tup = getattr(self, "_tuples", {})
+        if (isinstance(node, ast.Subscript) and isinstance(node.slice, ast.Name) and node.slice.id in tup
+                and not self._rule_matches(node)):
+            elts = [ast.Name(id=n, ctx=ast.Load()) for n in tup[node.slice.id]]
+            return self.expr(ast.Subscript(value=node.value, slice=ast.Tuple(elts=elts, ctx=ast.Load()), ctx=node.ctx), scope)
+        return P.Translator2TH.expr(self, node, scope)
+
+    def _block1(self, stmts, scope, ind, ctx):
+        if stmts and isinstance(stmts[0], (ast.Assign, ast.AugAssign, ast.For)):
+            st = stmts[0]
+            targets = st.targets if isinstance(st, ast.Assign) else [st.target]
+            bound = {n.id for t in targets for n in ast.walk(t) if isinstance(n, ast.Name)}
+            for v in [v for v, names in self._tuples.items() if v in bound or bound & set(names)]:
+                del self._tuples[v]
+            if (isinstance(st, ast.Assign) and len(st.targets) == 1 and isinstance(st.targets[0], ast.Name)
+                    and isinstance(st.value, ast.Tuple) and len(st.value.elts) >= 2
+                    and all(isinstance(e, ast.Name) for e in st.value.elts)):
+                self._tuples[st.targets[0].id] = [e.id for e in st.value.elts]
+        return P.Translator2TH._block1(self, stmts, scope, ind, ctx)
+
+
 def _functions():
     """[(name, lean signature, thunk -> body text, stub body)] — the stub is what an untranslatable function becomes;
     it is chosen so that the equality obligation cannot be proved"""
@@ -63,7 +94,7 @@ def _functions():
     from menpo.transform.piecewiseaffine import base as pw
     from menpo.transform import WithDims
     from menpo.image import boolean as mb
-    T = P.Translator2TH
+    T = _T
 
     def R(**kw):
         return P.Rules2T(fn_style=True, **kw)
